@@ -29,6 +29,19 @@ type ReplayFile struct {
 	Trace       []string       `json:"trace,omitempty"`
 	All         []rt.Violation `json:"all_violations,omitempty"`
 	Instr       []rt.InstrInfo `json:"instrumentation,omitempty"`
+	// Prelude: runs executed in the same process BEFORE the violating run, oldest
+	// first.  Present when the violation needs state that earlier calls left
+	// behind inside the code under test (a pool, a cache, a package variable):
+	// the replay is then the whole sequence, in one fresh process.
+	Prelude []PreludeRun `json:"prelude,omitempty"`
+}
+
+// PreludeRun is one earlier run of a history replay.  Without a tape it is
+// regenerated from (base seed, run index, sweep position).
+type PreludeRun struct {
+	RunIndex int      `json:"run_index"`
+	SweepK   int      `json:"sweep_k"`
+	Tape     []uint32 `json:"tape,omitempty"`
 }
 
 func hasClass(vs []rt.Violation, class string) *rt.Violation {
@@ -213,6 +226,7 @@ func fillReplay(p *Prop, rf *ReplayFile) {
 func replayMain(fs *flag.FlagSet, args []string) {
 	file := fs.String("file", "", "")
 	quiet := fs.Bool("quiet", false, "")
+	record := fs.String("recordprelude", "", "write the replay file with regenerated prelude tapes here")
 	fs.Parse(args)
 	var rf ReplayFile
 	if err := readJSON(*file, &rf); err != nil {
@@ -224,6 +238,28 @@ func replayMain(fs *flag.FlagSet, args []string) {
 	}
 	if p.Variant == "I" && !rt.Instrumented() {
 		die2("replay of %s needs the instrumented build", p.ID)
+	}
+	for i := range rf.Prelude {
+		pr := &rf.Prelude[i]
+		var pt *rt.Tape
+		if pr.Tape != nil {
+			pt = rt.NewReplayTape(pr.Tape)
+		} else {
+			pt = rt.NewTape(runSeed(rf.BaseSeed, p.ID, pr.RunIndex))
+			if pr.SweepK >= 0 {
+				pt.Override = map[string]int{"config.faulty": 1, "faultpos": pr.SweepK}
+			}
+		}
+		execRun(p, pt, rf.Tier, false)
+		if pr.Tape == nil {
+			pr.Tape = append([]uint32{}, pt.Rec...)
+		}
+	}
+	if *record != "" {
+		// write the file back with the prelude tapes filled in (self-contained)
+		if err := writeJSON(*record, &rf); err != nil {
+			die2("%v", err)
+		}
 	}
 	t := rt.NewReplayTape(rf.Tape)
 	res := execRun(p, t, rf.Tier, !*quiet)
